@@ -25,7 +25,7 @@ STAT_NAMES = ["ok", "err_short_buffer", "err_overflows_bufs_element", "err_unsup
 
 class Prop:
     pid = "C17"
-    vo_check = ["theories/Offload/GsoCheck.vo"]
+    vo_check = ["theories/Offload/GsoCheck.vo", "theories/Gen/CsumAst.vo"]
     vo_props = ["theories/Props/C17.vo"]
     k_names = ["checksum(tun.checksumNoFold/checksum/pseudoHeaderChecksumNoFold == Offload.Checksum mirror and == RFC 1071 spec, "
                "64-bit initial values at the edge of 2^64 x every tail length)",
@@ -48,11 +48,14 @@ class Prop:
                    "csum_start = IP header length (IPv4: IHL*4 >= 20, IPv6: 40, no extension headers), csum_offset 16 (TCP) / 6 (UDP)",
                    "every output buffer has room for a whole segment (len(bufs[i]) - offset >= hdrLen + gso_size), as device.RoutineReadFromTUN provides for MTU-sized segments",
                    "checksum completion (GSO_NONE + NEEDS_CSUM): the checksum field holds the folded pseudo-header sum (CHECKSUM_PARTIAL contract)"]
-    trusted_extra = ["Base/Ints.v: primitive Uint63 literals carry packet bytes in generated case files only",
+    trusted_extra = ["translator harness/cmd/csumast (go/parser: bodies of checksumNoFold, checksum, pseudoHeaderChecksumNoFold as a deep-embedded AST; binary.NativeEndian read as little endian (amd64/arm64 hosts); unrecognised constructs become Unknown nodes; notes/C17-csum-ast.md)",
+                     "Base/Ints.v: primitive Uint63 literals carry packet bytes in generated case files only",
                      "x/sys/unix VIRTIO_NET_HDR_* / IPPROTO_* values are spelled out in Offload/Gso.v and compared with the compiler's values in every case file (tun/verif_c17_linux.go)"]
 
     def __init__(self):
         self.dir = os.path.join(vlib.OUT, "C17")
+        # translator G2: function bodies regenerated from the source on every run
+        self.translators = [lambda: vlib.gen_file("csumast", os.path.join("Gen", "CsumAst.v"), ["-repo", vlib.REPO])]
 
     def _load(self, d):
         meta = json.load(open(os.path.join(d, "cases.json")))
